@@ -489,6 +489,33 @@ def do_call(sess: Session, call: dict) -> dict:
         except BaseException as e:  # noqa
             res.update(dict(_exc(e), stage="read/decompile"))
         return res
+    if kind == "cli_fn":
+        # direct calls of the public helper functions of explorerscript/cli/*.py, with the arguments a caller would naturally pass
+        from explorerscript.cli import compile as cc, decompile as cd
+        from explorerscript.ssb_converting.ssb_data_types import DungeonModeConstants, SsbRoutineInfo, SsbRoutineType
+        from explorerscript.ssb_converting.ssb_decompiler import ExplorerScriptSsbDecompiler
+        fn = call["fn"]
+        try:
+            if fn == "decompile.read_ops":
+                ops = cd.read_ops(call["ops"])                      # without a counter
+                res = {"offsets": [o.offset for o in ops]}
+                text, sm = ExplorerScriptSsbDecompiler([SsbRoutineInfo(SsbRoutineType.GENERIC, -1)], [ops], [], PERF_VAR, DungeonModeConstants(*DMODE)).convert()
+                res.update({"text": text, "source_map": sm_json(sm)})
+                return res
+            if fn == "decompile.parse_pos_mark_arg":
+                return {"value": list(cd.parse_pos_mark_arg(call["arg"]))}
+            if fn == "compile.build_ops":
+                from explorerscript.ssb_converting.ssb_compiler import ExplorerScriptSsbCompiler
+                c = ExplorerScriptSsbCompiler(PERF_VAR, [])
+                c.compile(call["text"], "/nonexistent/main.exps")
+                return {"ops": json.loads(json.dumps([cc.build_ops(r) for r in c.routine_ops], default=str))}
+            if fn == "cli.check_settings":
+                import explorerscript.cli as cl
+                cl.check_settings(call["arg"])
+                return {"ok": True}
+            return {"skipped": "no driver for " + fn}
+        except BaseException as e:  # noqa
+            return _exc(e)
     if kind == "convert_again":
         ent = sess.decompilers.get(call["keep"])
         if ent is None:
@@ -647,6 +674,21 @@ def compiler_only_setup(limit: int) -> None:
     import of the decompiler package (graph_minimizer raises the limit at import)"""
     sys.setrecursionlimit(limit)
     import explorerscript.ssb_converting.ssb_compiler  # noqa
+
+
+def cli_functions(_: Any = None) -> list[str]:
+    """public functions defined in explorerscript/cli/*.py (importable, not only reachable through __main__)"""
+    import importlib
+    import inspect
+    import pkgutil
+    import explorerscript.cli as cl
+    out = []
+    mods = [cl] + [importlib.import_module(mi.name) for mi in pkgutil.iter_modules(cl.__path__, cl.__name__ + ".")]
+    for m in mods:
+        for nm, f in inspect.getmembers(m, inspect.isfunction):
+            if f.__module__ == m.__name__ and not nm.startswith("_"):
+                out.append((m.__name__.split("explorerscript.")[-1].replace("cli.", "") if m is not cl else "cli") + "." + nm)
+    return sorted(out)
 
 
 def process_facts() -> dict:
@@ -965,25 +1007,29 @@ def run_threads(arg: dict) -> dict:
     import logging
     logging.disable(logging.CRITICAL)
     threading.stack_size(128 * 1024 * 1024)
-    from explorerscript.ssb_converting.decompiler.graph_building import graph_utils as gu
-    import explorerscript.ssb_converting.ssb_compiler  # noqa  (imports happen before any thread starts)
-    import explorerscript.ssb_converting.ssb_decompiler  # noqa
-    import explorerscript.cli.decompile  # noqa
-    import importlib
-    import pkgutil
-    import antlr4
-    import explorerscript
-    for pkg in (explorerscript, antlr4):      # no import may happen while a thread is parked
-        for mi in pkgutil.walk_packages(pkg.__path__, pkg.__name__ + "."):
-            if ".cli." in mi.name or "pygments" in mi.name:
-                continue
-            try:
-                importlib.import_module(mi.name)
-            except Exception:
-                pass
+    cold = bool(arg.get("cold")) and arg.get("mode") != "sched" and not arg.get("warm") and not arg.get("instrument")
+    if not cold:
+        import explorerscript.ssb_converting.ssb_compiler  # noqa  (imports happen before any thread starts)
+        import explorerscript.ssb_converting.ssb_decompiler  # noqa
+        import explorerscript.cli.decompile  # noqa
+        import importlib
+        import pkgutil
+        import antlr4
+        import explorerscript
+        for pkg in (explorerscript, antlr4):      # no import may happen while a thread is parked
+            for mi in pkgutil.walk_packages(pkg.__path__, pkg.__name__ + "."):
+                if ".cli." in mi.name or "pygments" in mi.name:
+                    continue
+                try:
+                    importlib.import_module(mi.name)
+                except Exception:
+                    pass
+    # (cold start: nothing of the implementation is imported or run before the threads' own first calls)
+    out_cold = {"implementation_modules_before_threads": sum(1 for m in sys.modules if m.startswith("explorerscript"))}
     progs = arg["threads"]
     n = len(progs)
     out: dict = {"results": [None] * n, "warm_results": None, "broken": None}
+    out.update(out_cold)
 
     def row_of(call: dict, res: dict) -> dict:
         row: dict = {"digest": digest(res), "summary": {k: res[k] for k in ("error", "site", "msg", "skipped", "stage") if k in res}}
@@ -1004,6 +1050,7 @@ def run_threads(arg: dict) -> dict:
     errors: list[Any] = [None] * n
 
     if arg.get("mode") == "sched":
+        from explorerscript.ssb_converting.decompiler.graph_building import graph_utils as gu
         sched = Sched(n, arg.get("seed", 0), arg.get("p_switch", 0.02), arg.get("switches"))
         tids: dict[int, int] = {}
         real_lock = _ORIG["lock"] if rec is not None else gu.cache_lock
